@@ -354,6 +354,9 @@ pub fn check(c: &Case) -> Outcome {
             // ---- autopilot: every surviving honest peer behaves: announces the rest, unchokes when due, serves everything;
             // an essential peer the client dropped is handed out again (as the tracker would)
             let mut rounds = 0usize;
+            let mut idle_s = 0u64;
+            let mut max_idle_s = 0u64;
+            let mut stall_kind = "";
             while w.fatal().is_none() && !all_have(w) && w.now() < horizon {
                 rounds += 1;
                 let mut progress = false;
@@ -402,6 +405,37 @@ pub fn check(c: &Case) -> Outcome {
                 if !progress {
                     w.advance_by(Duration::from_secs(5)).await;
                     net.fold(w);
+                    // stall detection: an essential peer is connected, is not choking the client, offers a piece the client
+                    // lacks - and nothing moves
+                    let snap = w.snapshot();
+                    let offered = hs.iter().any(|h| {
+                        h.p != usize::MAX
+                            && h.spec.essential
+                            && net.alive(w, h.p)
+                            && !net.peers[h.p].chokes_client
+                            && h.pending_haves.is_empty()
+                            && (0..snap.statuses.len()).any(|i| net.peers[h.p].advertised[i] && snap.statuses[i] != Status::Have)
+                    });
+                    if offered {
+                        idle_s += 5;
+                        if idle_s > max_idle_s {
+                            max_idle_s = idle_s;
+                            // what kind of stall is it? B: a missing piece is reserved, its fetcher is connected and not choked,
+                            // yet nothing is in flight. A: the piece is free, an idle unchoking peer offers it, nobody asks.
+                            let reserved_idle = (0..snap.statuses.len()).any(|i| {
+                                matches!(snap.statuses[i], Status::Reserved(n) if n > 0)
+                                    && snap.peers.iter().any(|ps| {
+                                        ps.piece_index == Some(i)
+                                            && net.peers.iter().any(|rp| rp.addr == ps.addr && !rp.closed && w.handler_alive(rp.conn) && !rp.chokes_client && rp.view.outstanding.is_empty())
+                                    })
+                            });
+                            stall_kind = if reserved_idle { "B" } else { "A" };
+                        }
+                    } else {
+                        idle_s = 0;
+                    }
+                } else {
+                    idle_s = 0;
                 }
                 if rounds > 20000 {
                     break;
@@ -444,6 +478,22 @@ pub fn check(c: &Case) -> Outcome {
             }
             if ctx.cuts_inside_prefix > 0 {
                 classes.push("cut-inside-length-prefix");
+            }
+            if max_idle_s >= 200 {
+                if stall_kind == "B" {
+                    fails.push((
+                        "stall-reserved-piece-not-being-fetched".into(),
+                        format!("for {} virtual seconds nothing was requested or delivered although a missing piece is reserved for a connected peer that is not choking the client and has no request outstanding (statuses {:?})", max_idle_s, w.snapshot().statuses),
+                    ));
+                } else {
+                    fails.push((
+                        "stall-free-piece-not-requested-from-idle-unchoking-peer".into(),
+                        format!("for {} virtual seconds nothing was requested or delivered although an honest peer was connected, not choking the client and offering a piece that is neither owned nor reserved; the download resumed only after that idle connection was dropped for inactivity and the peer reconnected (final statuses {:?})", max_idle_s, w.snapshot().statuses),
+                    ));
+                }
+            }
+            if max_idle_s >= 60 {
+                classes.push("idle>=60s-with-offer");
             }
             (fails, classes, w.fatal(), done, elapsed, w.snapshot().statuses)
         })
@@ -507,7 +557,7 @@ pub fn swarm_sub() -> Sub {
 pub fn def() -> PropDef {
     PropDef {
         id: "C02",
-        rule: "sub swarm: a consistent torrent geometry (piece length from {1,3,64,1000,16384,16385,20000 (+16383,32768,40000 thorough)}, 1-5 files incl. zero-length and sub-piece files, single/multi-file form) and 1-4 honest peers whose piece sets cover everything on the essential ones; honest peers (some of them downloaders that declare interest in the client, some whose answers to cancelled requests are already in flight) answer every request with the right bytes, unchoke 0-59 virtual seconds after joining or after having choked, announce pieces by bitfield or partly by later Haves, send keep-alives and unknown-id messages; a generated script of up to 50 moves (serve 1-3 blocks, choke, unchoke, keep-alive, unknown message, have, disconnect of a non-essential peer, idle) picks who moves next; every outgoing message may be cut at generated points (also inside the length prefix) with or without a barrier between segments; afterwards all surviving honest peers serve until done, and an essential peer the client dropped is handed out again. Oracle: all pieces Have within 60 virtual minutes, no task or manager panic, no honest connection ended by the client with an error, and the real Extractor reproduces every file byte for byte. Non-trivial = >= 2 peers and (a non-essential disconnect or a stream cut inside a message); distinct by hash of the case.",
+        rule: "sub swarm: a consistent torrent geometry (piece length from {1,3,64,1000,16384,16385,20000 (+16383,32768,40000 thorough)}, 1-5 files incl. zero-length and sub-piece files, single/multi-file form) and 1-4 honest peers whose piece sets cover everything on the essential ones; honest peers (some of them downloaders that declare interest in the client, some whose answers to cancelled requests are already in flight) answer every request with the right bytes, unchoke 0-59 virtual seconds after joining or after having choked, announce pieces by bitfield or partly by later Haves, send keep-alives and unknown-id messages; a generated script of up to 50 moves (serve 1-3 blocks, choke, unchoke, keep-alive, unknown message, have, disconnect of a non-essential peer, idle) picks who moves next; every outgoing message may be cut at generated points (also inside the length prefix) with or without a barrier between segments; afterwards all surviving honest peers serve until done, and an essential peer the client dropped is handed out again. Oracle: all pieces Have within 60 virtual minutes, never 200 virtual seconds without any request or delivery while an honest peer is connected, not choking the client and offering a missing piece (a hang), no task or manager panic, no honest connection ended by the client with an error, and the real Extractor reproduces every file byte for byte. Non-trivial = >= 2 peers and (a non-essential disconnect or a stream cut inside a message); distinct by hash of the case.",
         assumptions: &[
             "liveness is decided up to a horizon of 60 virtual minutes",
             "a dropped essential peer is reachable again (the harness reconnects it, as a tracker would hand it out again)",
